@@ -512,4 +512,10 @@ example : let y := runSched 1 [[.ln 0 true, .cdel 0], [.ln 0 true]] [0, 0, 1, 1,
 example : let y := runSched 1 [[.ln 0 true, .cdel 0], [.ln 0 true, .cdel 0]] []
     (y.clean, y.threads.map (·.held), y.g.pool 0, (y.g.ent 0).destructed) = (true, [[], []], none, 1) := by decide
 
+-- the log-writer client: config 0 opens writers 0 and 1, config 1 opens writer 0 and fails to open writer 1;
+-- after config 0 closed its logs (closeAll) config 1 still holds writer 0 alive; after both closed, nothing is left
+example : let y := runSched 2 [[.ln 0 true, .ln 1 true, .closeAll], [.ln 0 true, .ln 1 false]] [0, 0, 0, 1, 1, 0, 0, 0, 0, 0, 0]
+    (y.clean, y.threads.map (·.held), (y.g.ent 0).destructed, (y.g.ent 1).destructed, y.g.pool 1) = (true, [[], [(0, 0)]], 0, 1, none) := by
+  decide
+
 end CaddyModel.C04
